@@ -102,6 +102,44 @@ def monitors_for(prop, case):
     return []
 
 
+def scale_counters(h, mon):
+    """Which *sizes* one run reached (latent faults sit behind sizes: bounded histories, periodic clean-ups, counters
+    that wrap).  Properties list the ones their scale cases are meant to deliver in REQUIRE, so that losing one makes
+    the check inconclusive instead of blind."""
+    exits, susp, started = {}, {}, {}
+    for ci in h.conts.values():
+        started[ci.pool] = started.get(ci.pool, 0) + 1
+        if ci.status in ("ok", "failed"):
+            exits[ci.pool] = exits.get(ci.pool, 0) + 1
+        elif ci.status == "suspended":
+            susp[ci.pool] = susp.get(ci.pool, 0) + 1
+    done_by_class, failed_pipes = {}, 0
+    for p in h.pipelines:
+        rs = p.runtime_status()
+        try:
+            if rs.is_pipeline_successful():
+                done_by_class[p.priority.name] = done_by_class.get(p.priority.name, 0) + 1
+            elif any(st.value == "failed" for st in rs.operator_states.values()):
+                failed_pipes += 1
+        except Exception:
+            pass
+    marks = [
+        ("run_of_more_than_4096_ticks", h.tick + 1 > 4096),
+        ("run_with_more_than_512_pipelines", len(h.pipelines) > 512),
+        ("run_with_more_than_8192_pipelines", len(h.pipelines) > 8192),
+        ("run_with_more_than_1024_completions_of_one_class", max(done_by_class.values(), default=0) > 1024),
+        ("run_with_more_than_256_failed_pipelines", failed_pipes > 256),
+        ("run_with_more_than_1000_exits_on_one_pool", max(exits.values(), default=0) > 1000),
+        ("run_with_more_than_4096_exits_on_one_pool", max(exits.values(), default=0) > 4096),
+        ("run_with_more_than_1024_starts_on_one_pool", max(started.values(), default=0) > 1024),
+        ("run_with_more_than_128_suspensions_on_one_pool", max(susp.values(), default=0) > 128),
+        ("run_with_more_than_8_pools", int(h.params.get("num_pools", 1)) > 8),
+    ]
+    for name, ok in marks:
+        if ok:
+            mon.count("scale:" + name)
+
+
 def run_sim_case(case, mon, prop, extra_monitors=None, nontrivial=None):
     from ..simworld import Harness
     from ..execworld import ANY
@@ -120,6 +158,7 @@ def run_sim_case(case, mon, prop, extra_monitors=None, nontrivial=None):
     mon.count("sim_containers", len(h.conts))
     mon.count("sim_pipelines", len(h.pipelines))
     mon.count("sim_suspensions", h.n_suspended)
+    scale_counters(h, mon)
     if h.exc is not None:
         mon.count("sim_run_raised")
         if prop == "C08":
